@@ -9,4 +9,6 @@ var checks = map[string]check{
 		Floors: map[string]int64{"c04rbc.handovers": 1000, "c04rbc.ack_before_payload": 100, "c04orch.handovers": 500}},
 	"C14": {ID: "C14", Level: "exploration", Units: []unit{u("hcore", "c14ctl", 11, 11), u("hcore", "c14stress", 2, 4)},
 		Floors: map[string]int64{"c14ctl.handoffs": 500, "c14ctl.schedules": 300, "c14stress.handoffs": 1000}},
+	"C15": {ID: "C15", Level: "exploration", Units: []unit{u("hcore", "c15", 8, 12), u("hcore", "c15ctl", 4, 4)},
+		Floors: map[string]int64{"c15.messages": 5000, "c15.topics": 1000, "c15ctl.probes_served": 200}},
 }
